@@ -48,7 +48,7 @@ theorem sepBefore_ok_of_joinGap (b : Build) (rows : List Row) (la : Option Nat) 
     · exact ⟨_, rfl⟩
     · split
       · exact ⟨_, rfl⟩
-      · split <;> exact ⟨_, rfl⟩
+      · exact ⟨_, rfl⟩
 
 theorem missStep_ok_of_joinGap (b : Build) (rows : List Row) (g : Gap) (hj : b.joinGap = some g) (acc) (p : Nat × Row) :
     ∃ r, missStep b rows acc p = .ok r := by
